@@ -203,6 +203,9 @@ impl<S, I> SimHandle<S, I> {
     pub fn take_wire(&self) -> Vec<S> {
         self.st.borrow_mut().wire.drain(..).collect()
     }
+    pub fn id(&self) -> u8 {
+        self.st.borrow().id
+    }
     pub fn wire_len(&self) -> usize {
         self.st.borrow().wire.len()
     }
